@@ -259,7 +259,8 @@ func RunOne(b Behaviour, tw *trace.Writer) error {
 			Offerings: []world.OfferingSpec{{Zone: "zone-a", CapacityType: "on-demand", Price: 900, Available: true}}}))
 	}
 	s := &sim{w: w, ctx: world.Ctx()}
-	tw.Begin(trace.M{"module": "Lifecycle", "launchTimeout": int(nclifecycle.LaunchTimeout / time.Second), "regTimeout": 900,
+	behJSON, _ := json.Marshal(b)
+	tw.Begin(trace.M{"module": "Lifecycle", "behJson": string(behJSON), "launchTimeout": int(nclifecycle.LaunchTimeout / time.Second), "regTimeout": 900,
 		"startupTaint": b.Cfg.StartupTaint, "extRes": b.Cfg.ExtRes, "startupKey": startupKey, "extResName": extResName,
 		"claim": claimName, "pool": poolName})
 	w.Sink = tw.Emit
